@@ -19,7 +19,7 @@ class ProgProp:
     owns_loader_errors = False
     quick_max_code = 2400
     thorough_max_code = 6000
-    budgets = {"quick": {"shards": 14, "examples": 55, "seconds": 80},
+    budgets = {"quick": {"shards": 14, "examples": 90, "seconds": 80},
                "thorough": {"shards": 16, "examples": 1500, "seconds": 1100}}
     use_corpus = False
 
